@@ -2,6 +2,7 @@ package main
 
 import (
 	"fmt"
+	"go/ast"
 	"go/constant"
 	"go/parser"
 	"go/token"
@@ -64,6 +65,8 @@ type FT struct {
 	ctr         int
 	env         map[ssa.Value][]Term
 	privMaps    map[ssa.Value]bool // maps made here that never escape (see privateMaps)
+	ghostLines  map[*GhostUpdate][]int
+	ghostFired  map[string]bool
 	locs        map[ssa.Value]*Loc
 	guard       map[*ssa.BasicBlock]Term
 	out         map[*ssa.BasicBlock]*State
@@ -1163,6 +1166,7 @@ func (ft *FT) litFact(lit Term) {
 // assertAt places the ghost assertions of the contract (assertat "text"#k expr) before the first instruction of the
 // source line they name.
 func (ft *FT) assertAt(ins ssa.Instruction, st *State) {
+	ft.ghostAt(ins, st)
 	if ft.con == nil || len(ft.con.AssertAt) == 0 {
 		return
 	}
@@ -1265,4 +1269,113 @@ func paramMutexes(fn *ssa.Function) []string {
 		}
 	}
 	return out
+}
+
+// ghostAt applies the ghost assignments of the contract (ghostat "text"#k g(a) := e; ...) before the first
+// instruction of the source line they name. The assignments of one clause are simultaneous.
+func (ft *FT) ghostAt(ins ssa.Instruction, st *State) {
+	if ft.con == nil || len(ft.con.GhostAt) == 0 || !ins.Pos().IsValid() {
+		return
+	}
+	if ft.ghostLines == nil {
+		ft.ghostLines = map[*GhostUpdate][]int{}
+		ft.ghostFired = map[string]bool{}
+		for _, g := range ft.con.GhostAt {
+			seen := map[int]bool{}
+			for _, b := range ft.fn.Blocks {
+				for _, i := range b.Instrs {
+					if !i.Pos().IsValid() {
+						continue
+					}
+					p := ft.eng.fset.Position(i.Pos())
+					if !seen[p.Line] && strings.Contains(ft.eng.fileLine(p.Filename, p.Line), g.Loc) {
+						seen[p.Line] = true
+						ft.ghostLines[g] = append(ft.ghostLines[g], p.Line)
+					}
+				}
+			}
+			sort.Ints(ft.ghostLines[g])
+		}
+	}
+	line := ft.eng.fset.Position(ins.Pos()).Line
+	for _, g := range ft.con.GhostAt {
+		hit := false
+		for i, l := range ft.ghostLines[g] {
+			if l == line && (g.Nth == 0 || g.Nth == i+1) {
+				hit = true
+			}
+		}
+		key := fmt.Sprintf("%p/%d", g, line)
+		if !hit || ft.ghostFired[key] {
+			continue
+		}
+		ft.ghostFired[key] = true
+		g.sites++
+		ctx := ft.specCtx(st, ft.entry)
+		ctx.local = ft.localResolver(ft.curBlk, false, nil, nil, ctx.local)
+		type upd struct {
+			key string
+			idx []Term
+			val Term
+		}
+		var ups []upd
+		bad := false
+		for i := range g.LHS {
+			call, ok := g.LHS[i].(*ast.CallExpr)
+			fid, ok2 := (ast.Expr)(nil), false
+			if ok {
+				fid, ok2 = call.Fun, true
+			}
+			id, ok3 := fid.(*ast.Ident)
+			if !ok || !ok2 || !ok3 {
+				ft.errf("ghostat %q: left-hand side must be ghostname(args)", g.Text)
+				bad = true
+				break
+			}
+			sf, ptypes, rtype := ctx.ghostByName(id.Name)
+			if sf == nil {
+				ft.errf("ghostat %q: unknown ghost %s", g.Text, id.Name)
+				bad = true
+				break
+			}
+			k, _ := ft.ghostKey(sf, ptypes, rtype)
+			var idx []Term
+			for _, a := range call.Args {
+				v, err := ctx.expr(a)
+				if err != nil {
+					ft.errf("ghostat %q: %v", g.Text, err)
+					bad = true
+					break
+				}
+				idx = append(idx, v.T)
+			}
+			rv, err := ctx.expr(g.RHS[i])
+			if err != nil {
+				ft.errf("ghostat %q: %v", g.Text, err)
+				bad = true
+			}
+			if bad {
+				break
+			}
+			ups = append(ups, upd{k, idx, rv.T})
+		}
+		if bad {
+			continue
+		}
+		for _, u := range ups {
+			ft.set(st, u.key, storeN(ft.get(st, u.key), u.idx, u.val))
+		}
+		ft.note("ghost update at \"" + g.Loc + "\": " + g.Text)
+	}
+}
+
+// storeN: nested store into an array of arrays.
+func storeN(h Term, idx []Term, v Term) Term {
+	if len(idx) == 0 {
+		return v
+	}
+	if len(idx) == 1 {
+		return app("store", h, idx[0], v)
+	}
+	return app("store", h, idx[0], storeN(app("select", h, idx[0]), idx[1:], v))
 }
